@@ -64,18 +64,27 @@ extern int mpt_queue_crop(MPT_STRUCT(queue) *queue, size_t pos, size_t len)
 	
 	/* move data over segments */
 	if (high) {
-		uint8_t *src = ((uint8_t *) queue->base) + len - low;
-		if (low <= post) {
-			memcpy(base, src, post);
+		uint8_t *src = queue->base;
+		/* removed range ends in upper segment, close gap there */
+		if (len < low) {
+			low -= len;
+			(void) memmove(base, base+len, low);
+			base += low;
+			low = len;
+		}
+		/* skip removed data in lower segment */
+		else {
+			src  += len - low;
+			high -= len - low;
+		}
+		if (high <= low) {
+			memcpy(base, src, high);
 			ret = 1;
 		}
 		else {
-			/* limit moved data size */
+			/* fill upper segment, move remaining data to base */
 			memcpy(base, src, low);
-			post -= low;
-			base = queue->base;
-			/* start at offset 'low' in post data ((len - low) + low) */
-			(void) memmove(base, base+len, post);
+			(void) memmove(queue->base, src+low, high-low);
 			ret = 3;
 		}
 	}
